@@ -243,6 +243,7 @@ func checkC07(c *km.Ctx) {
 	// the eviction and the refresh reach the row they mean: bound arguments in the statement's column order
 	checkSQLArgKinds(c, "R-C07-2")
 	checkStmtTableKeys(c, "R-C07-2")
+	checkEvictionReachesPrimary(c, "R-C07-2")
 	checkUpsertStatements(c, "R-C07-2", "expiring_signed_user_data", []string{"jws_data", "expiration_epoch"}, 2)
 	// ---------- R-C07-3 (the acceptance of a cached record is judged in checkLDAPVerdict)
 	if gs := c.MustFunc("R-C07-3", "cmd/keymasterd", "(*RuntimeState).GetSigned"); gs != nil {
@@ -960,4 +961,39 @@ func checkLDAPBindVerdict(c *km.Ctx, s *km.Sem) {
 	if nRej == 0 || nAcc == 0 {
 		r.AnchorLost("R-C07-1", sprintf("accepting (%d) / rejecting (%d) verdict returns of CheckLDAPUserPassword", nAcc, nRej))
 	}
+}
+
+// checkEvictionReachesPrimary: DeleteSigned - the eviction of a rejected cached password - acts on the primary
+// store before anything else can make it give up: every return of the function is dominated by the first
+// operation on the primary database (state.db), directly or through a helper that is handed it. A deletion that
+// first does something else that may fail (and whose failure the caller, who drops the error, never sees) leaves
+// the rejected password in the store.
+func checkEvictionReachesPrimary(c *km.Ctx, rule string) {
+	fn := c.MustFunc(rule, "cmd/keymasterd", "(*RuntimeState).DeleteSigned")
+	if fn == nil {
+		return
+	}
+	var first ssa.CallInstruction
+	for _, ci := range km.CallsIn(fn) {
+		onPrimary := false
+		for _, a := range km.CallArgs(ci.Common()) {
+			if a != nil && mentionsField(a, "db") {
+				onPrimary = true
+			}
+		}
+		if onPrimary && (first == nil || km.InstrDominates(ci, first)) {
+			first = ci
+		}
+	}
+	if first == nil {
+		c.R.AnchorLost(rule, "operation on the primary database in DeleteSigned")
+		return
+	}
+	early := ""
+	km.Instrs(fn, func(in ssa.Instruction) {
+		if ret, ok := in.(*ssa.Return); ok && !km.InstrDominates(first, ret) && fnReachable(fn, ret.Block()) {
+			early = posOf(c, ret)
+		}
+	})
+	c.R.Add(rule, km.FuncName(fn), "eviction reaches the primary store", posOf(c, first), "no return before the first operation on the primary database", "return at "+early, early == "")
 }
